@@ -166,7 +166,7 @@ def gen_query(rng):
         sql += f' limit {rng.randint(1, 3)}'
     if rng.random() < 0.35:
         opts = ['a=1', 'B=2', "c='x'", 'partition_size=2', f'{maliases[0]}.x=1', f'{maliases[0].upper()}.y=2', 'zz.q=3', 'A=5',
-                f'{maliases[-1]}.Deep.key=4', f'{maliases[0]}.partition_size=3']
+                f'{maliases[-1]}.Deep.key=4', f'{maliases[0]}.partition_size=3', f'{maliases[0]}.llm.temperature=7', 'zz.a.b=1']
         sql += ' using ' + ', '.join(rng.sample(opts, rng.randint(1, 3)))
     return sql
 
@@ -617,8 +617,13 @@ def run(tier, seed, replay=None):
     for i, flags in corr_bad[:3]:
         sql, cname, ob = rows[i]
         broken.append(BrokenTie(f'model disagrees with the implementation on {[c for c, f in zip(comp, flags) if not f]}: `{sql}` ({cname})', ob['case'][:1500]))
+    # USING: Model/ModelJoin.model_params is the specification itself (C14_using_* are stated about it): keys lower-cased, an
+    # alias-qualified option goes to that model only with the alias cut at the FIRST dot, everything else unchanged
     for i in using_bad[:2]:
-        broken.append(BrokenTie(f'USING model disagrees with the implementation: `{rows[i][0]}`', str(rows[i][2]['facts'].get('using'))))
+        u = rows[i][2]['facts'].get('using')
+        R.violation({'sql': rows[i][0], 'catalog': rows[i][1], 'what': 'USING options do not reach the model unchanged apart from key case',
+                     '(model aliases, options, params of the apply step)': [[al, [[k_, repr(v_)] for k_, v_ in o], [[k_, repr(v_)] for k_, v_ in im]]
+                                                                            for al, o, im in u], 'judge': 'Model/ModelJoinCorr.using_ok'})
     for i in seqc_bad[:2]:
         broken.append(BrokenTie(f'step-sequence model disagrees with the implementation: `{rows[i][0]}`', str(rows[i][2]['facts'].get('seq'))))
     # ---- judge results
